@@ -165,3 +165,39 @@ Lemma C03_fact_accessor_sites :
   /\ Generated.AccessorSites.resolve_best_path_calls = resolve_best_path_calls_classified
   /\ Generated.AccessorSites.morpheme_accessors = morpheme_accessors_classified.
 Proof. vm_compute. repeat split; reflexivity. Qed.
+
+(* ==================================================================================================================
+   The two machine-level models of lattice.rs agree (Proofs/LatticePM.v): on round_wf input the panicking-index model
+   returns POk exactly with the values of Model/LatticeM.v (the costs every insert returns, the EOS predecessor and
+   cost), and stops at the i32 addition exactly when LatticeM does.  mconn = the matrix as a total function. *)
+From SudachiVerif Require Import Proofs.LatticePM.
+
+Theorem C03_lattice_models_agree :
+  forall (dbg ovf : bool) (nl nr : N) (data : list Z), matrix_ok nl nr data = true ->
+  forall (L0 : plat) (len : nat) (ns : list node), round_wf nl nr data (len, ns) = true ->
+    exists L1, preset L0 len = POk L1 /\
+    match minsert_all ovf (mconn nl nr data) (mreset len) ns with
+    | Ok (LM, cs) =>
+        exists LP, pinsert_all dbg ovf nl nr data L1 ns = POk (LP, cs) /\ Rel LP LM /\ Inv nl len nil LP /\
+          match mconnect_eos ovf (mconn nl nr data) LM with
+          | Ok e => exists LP', pconnect_eos dbg ovf nl nr data LP = POk (LP', is_some e)
+                                /\ (forall r i c, e = Some (r, i, c) -> p_eos LP' = Some ((r, i), c))
+          | Panic => pconnect_eos dbg ovf nl nr data LP = PPanic S_add_overflow
+          end
+    | Panic => pinsert_all dbg ovf nl nr data L1 ns = PPanic S_add_overflow
+    end.
+Proof. exact models_agree. Qed.
+Print Assumptions C03_lattice_models_agree.
+
+(* ONE statement for the lattice: under the cost bound of C03_no_overflow_if_bounded (every matrix entry within K1, every
+   word cost within K2, (len + 1) * (K1 + K2) < i32::MAX per analysis) nothing panics, in the debug profile (debug
+   assertions, overflow checks) as well as in release: no index, no unwrap, no assertion, no i32 overflow, no read
+   outside the matrix; through any number of analyses on one Lattice object from any earlier state *)
+Theorem C03_lattice_never_panics_debug :
+  forall (dbg ovf : bool) (nl nr : N) (data : list Z), matrix_ok nl nr data = true ->
+  forall K1 K2, 0 <= K1 -> 0 <= K2 -> (forall z, In z data -> - K1 <= z <= K1) ->
+  forall (rs : list (nat * list node)) (L0 : plat),
+    forallb (round_wf nl nr data) rs = true -> Forall (round_bounded K1 K2) rs ->
+    exists r, prounds dbg ovf nl nr data L0 rs = POk r.
+Proof. exact prounds_never_panic. Qed.
+Print Assumptions C03_lattice_never_panics_debug.
